@@ -714,7 +714,9 @@ def eval_path(case, acc=None):
     if acc is not None:
         acc.evaluations += len(R1s) + 2
     if kept is not None:
-        bad = [i for i in range(len(cyc)) if np.isfinite(direct[0][i]) and not _isclose(kept[i], direct[0][i])]
+        # (judged where the exact iso-damage amplitude is positive, as everywhere else; amplitude = |range| / 2 as the accessor reports it)
+        bad = [i for i in range(len(cyc)) if np.isfinite(direct[0][i]) and _exact(rd, cyc[i][0], cyc[i][1], R2) is not None
+               and not _isclose(abs(kept[i]), direct[0][i])]
         if bad:
             i = bad[0]
             viol.append(("C12/interface/HaighDiagram.transform/kept-diagram-asked-for-other-targets-before", mini(cyc=[cyc[i]]),
